@@ -84,7 +84,7 @@ def main(tier, seed, budget):
     cfgs, skipped = configs.pool(crng, n_sub=16 if quick else 40, max_n=5,
                                  cap=600 if quick else 1700)
     cfgs += configs.micro(crng)
-    stats = dict(hs2_refs=0, blocks_opened=0, mixed_hs=0, worlds=0, ref_worlds=0, by_P={}, by_policy={}, eager={}, root_copy=0, events=0, mpi=0, fs=0,
+    stats = dict(twins=0, hs2_refs=0, blocks_opened=0, mixed_hs=0, worlds=0, ref_worlds=0, by_P={}, by_policy={}, eager={}, root_copy=0, events=0, mpi=0, fs=0,
                  rdigests=set(), nontrivial=set(), harness=0, sound_functions=0, sound_points=0, empty_slice_runs=0,
                  hashseeds=hashseeds, ref_failed=[])
     samples = []
@@ -177,6 +177,18 @@ def main(tier, seed, budget):
 
             def gen_jobs():
                 nonlocal idx
+                # directed pairs first: the configurations with the richest simplification paths (check_results un-merges
+                # something), two and three ranks, two worlds each that differ only in schedule and ambient random state
+                rich = sorted([c for c in live_cfgs if c.get('unmerged')], key=lambda c: (c['basis'] is not None, -c['unmerged'], c['nfun']))[:5]
+                for ci, c in enumerate(rich):
+                    for P in (2, 3):
+                        for v in range(2):
+                            rs = base.run_seed(seed, 300000 + ci * 100 + P * 10 + v)
+                            a = dict(runname=c['runname'], compl=c['compl'], basis=c['basis'], P=P, seed=rs, policy={'kind': ['uniform', 'lowest'][v]},
+                                     eager=[0.3, 1.0][v], root_copy=False, run_seed=rs, nfun=c['nfun'], npseed=1000 + 77 * v + ci, hashseed=hs, twin=True)
+                            a['ref_hashes'] = {f + '_%d.txt' % a['compl']: refs[cfg_key(a)].get(f + '_%d.txt' % a['compl']) for f in GEN_FILES}
+                            a['max_steps'] = 40 * ref_steps[cfg_key(a)] * P + 5000
+                            yield dict(fn=JOB, args=a, timeout=900)
                 while True:
                     a = draw_run(seed, idx, live_cfgs, tier)
                     idx += 1
@@ -187,6 +199,17 @@ def main(tier, seed, budget):
                     if a.get('hs_offsets'):
                         a['rank_hashseeds'] = [hs + o for o in a['hs_offsets']]
                     yield dict(fn=JOB, args=a, timeout=900)
+                    if a['P'] > 1 and a['run_seed'] % 5 == 0:
+                        # a twin: same configuration, rank count, hash seeds and bcast coin - another schedule, another eager bias
+                        # and another ambient random state; guarantees that schedule independence is actually compared
+                        b = copy.deepcopy(a)
+                        b['seed'] = a['seed'] + 7
+                        b['npseed'] = a['npseed'] + 12345
+                        b['policy'] = {'kind': 'uniform'} if a['policy']['kind'] != 'uniform' else {'kind': 'pct', 'd': 2, 'horizon': 200 * a['P'] + a['nfun'] * 4}
+                        b['eager'] = 1.0 - a['eager']
+                        b['run_seed'] = a['run_seed'] + 500000
+                        b['twin'] = True
+                        yield dict(fn=JOB, args=b, timeout=900)
             pending_min = []
             for job, out in pool.imap(gen_jobs(), timeout=900, deadline=deadline):
                 a = job['args']
@@ -201,6 +224,7 @@ def main(tier, seed, budget):
                 stats['eager'][str(a['eager'])] = stats['eager'].get(str(a['eager']), 0) + 1
                 stats['root_copy'] += int(a['root_copy'])
                 stats['mixed_hs'] += int(bool(a.get('hs_offsets')))
+                stats['twins'] += int(bool(a.get('twin')))
                 stats['events'] += r['steps']
                 stats['blocks_opened'] += sum((rk.get('clock') or {}).get('blocks') or 0 for rk in r['ranks'])
                 stats['mpi'] += r['nmpi']
@@ -255,7 +279,7 @@ def main(tier, seed, budget):
              'order in which ranks touch every object (collective instance, shared path) touched by >= 2 ranks.' % 5,
         samples=samples,
         configurations=len(cfgs), configurations_skipped_over_cap=len(skipped), configurations_with_unmerge_path=sum(1 for c in cfgs if c.get('unmerged')), reference_failed=stats['ref_failed'],
-        worlds_by_P=stats['by_P'], worlds_by_policy=stats['by_policy'], eager_bias=stats['eager'], bcast_root_copy_runs=stats['root_copy'], worlds_with_per_rank_hash_seeds=stats['mixed_hs'], sequential_runs_under_another_hash_seed_compared=stats['hs2_refs'],
+        worlds_by_P=stats['by_P'], worlds_by_policy=stats['by_policy'], eager_bias=stats['eager'], bcast_root_copy_runs=stats['root_copy'], worlds_with_per_rank_hash_seeds=stats['mixed_hs'], twin_worlds_for_schedule_independence=stats['twins'], sequential_runs_under_another_hash_seed_compared=stats['hs2_refs'],
         runs_with_more_ranks_than_functions=stats['empty_slice_runs'],
         seam_events=stats['events'], mpi_events=stats['mpi'], fs_events=stats['fs'],
         simulated_time=dict(seam_events=stats['events'], timed_blocks_opened=stats['blocks_opened'],
